@@ -93,6 +93,8 @@ type Spec struct {
 	Tamper    Tamper
 	SignedSfx string // deactivate: suffix inside signed data ("" = Suffix)
 	Nonce     string
+	HeaderAlg string // overrides the "alg" protected header ("" = the signing key's algorithm)
+	CrvSpell  string // overrides the spelling of "crv" inside the signed JWK ("" = as is)
 }
 
 // Op is a built request with its fact vector.
@@ -150,10 +152,21 @@ func mhash(v interface{}, code uint) string {
 
 // revealOf is the reveal value of the revealed key as it appears in the signed data (a nonce is part of the JWK).
 func revealOf(s Spec) string {
-	if s.Nonce != "" && s.RevealKey == s.SignedKey {
-		return mhash(jwkWithNonce(s.RevealKey, s.Nonce), s.Code)
+	if (s.Nonce != "" || s.CrvSpell != "") && s.RevealKey == s.SignedKey {
+		return mhash(signedJWK(s, s.RevealKey), s.Code)
 	}
 	return s.RevealKey.Reveal(s.Code)
+}
+
+// signedJWK is the JWK as placed inside the signed data (nonce and crv spelling applied).
+func signedJWK(s Spec, k *Key) interface{} {
+	j := jwkWithNonce(k, s.Nonce)
+	if s.CrvSpell == "" || k == nil {
+		return j
+	}
+	c := *(j.(*jws.JWK))
+	c.Crv = s.CrvSpell
+	return &c
 }
 
 func jwkWithNonce(k *Key, nonce string) interface{} {
@@ -181,6 +194,9 @@ func Build(s Spec) *Op {
 	header := fmt.Sprintf(`{"alg":"%s"}`, "")
 	if s.SignWith != nil {
 		header = fmt.Sprintf(`{"alg":"%s"}`, s.SignedKeyAlg())
+		if s.HeaderAlg != "" {
+			header = fmt.Sprintf(`{"alg":"%s"}`, s.HeaderAlg)
+		}
 	}
 	req := map[string]interface{}{}
 	switch s.Type {
@@ -196,7 +212,7 @@ func Build(s Spec) *Op {
 	case operation.TypeUpdate:
 		signed := &model.UpdateSignedDataModel{DeltaHash: deltaHash, AnchorFrom: s.From, AnchorUntil: s.Until}
 		payload := canon(signed)
-		payload = injectKey(payload, "updateKey", jwkWithNonce(s.SignedKey, s.Nonce))
+		payload = injectKey(payload, "updateKey", signedJWK(s, s.SignedKey))
 		req["type"] = "update"
 		req["didSuffix"] = s.Suffix
 		req["revealValue"] = revealOf(s)
@@ -209,7 +225,7 @@ func Build(s Spec) *Op {
 		signed := &model.RecoverSignedDataModel{DeltaHash: deltaHash, RecoveryCommitment: s.NextRec,
 			AnchorOrigin: s.Origin, AnchorFrom: s.From, AnchorUntil: s.Until}
 		payload := canon(signed)
-		payload = injectKey(payload, "recoveryKey", jwkWithNonce(s.SignedKey, s.Nonce))
+		payload = injectKey(payload, "recoveryKey", signedJWK(s, s.SignedKey))
 		req["type"] = "recover"
 		req["didSuffix"] = s.Suffix
 		req["revealValue"] = revealOf(s)
@@ -229,7 +245,7 @@ func Build(s Spec) *Op {
 		signed := &model.DeactivateSignedDataModel{DidSuffix: ss, RevealValue: s.RevealKey.Reveal(s.Code),
 			AnchorFrom: s.From, AnchorUntil: s.Until}
 		payload := canon(signed)
-		payload = injectKey(payload, "recoveryKey", jwkWithNonce(s.SignedKey, s.Nonce))
+		payload = injectKey(payload, "recoveryKey", signedJWK(s, s.SignedKey))
 		req["type"] = "deactivate"
 		req["didSuffix"] = s.Suffix
 		req["revealValue"] = revealOf(s)
@@ -242,8 +258,8 @@ func Build(s Spec) *Op {
 	}
 	if s.Type != operation.TypeCreate {
 		op.RevealC = s.RevealKey.Commitment(s.Code)
-		if s.Nonce != "" && s.RevealKey == s.SignedKey {
-			if j, ok := jwkWithNonce(s.RevealKey, s.Nonce).(*jws.JWK); ok {
+		if (s.Nonce != "" || s.CrvSpell != "") && s.RevealKey == s.SignedKey {
+			if j, ok := signedJWK(s, s.RevealKey).(*jws.JWK); ok {
 				c, err := commitment.GetCommitment(j, s.Code)
 				must(err)
 				op.RevealC = c
